@@ -199,11 +199,23 @@ Proof.
       rewrite !aget_aremove_neq, aget_aput_neq; auto; repeat split; eauto.
 Qed.
 
-Lemma do_done_inv1 c s t : c_ordered c = true -> inv1 s -> inv1 (fst (do_done c s t)).
+Lemma inv1_pend_sub s pd po :
+  inv1 s -> (forall t r, aget t pd = Some r -> aget t (pend s) = Some r) -> inv1 (set_pend_poison s pd po).
 Proof.
-  intros O I. unfold do_done. destruct (aget t (pend s)) as [r|] eqn:P; auto.
+  intros [] SUB. constructor; cbn [set_pend_poison store live pend tick applied released used]; eauto.
+  intros i Hi. destruct (i_gone0 i Hi) as (A & B & a & C & D). repeat split; auto. exists a. split; eauto.
+Qed.
+
+Lemma do_poison_inv1 s t al : inv1 s -> inv1 (fst (do_poison s t al)).
+Proof. intros I. unfold do_poison. destruct (aget t (pend s)); auto. cbn [fst]. apply inv1_pend_sub; auto. Qed.
+
+Lemma do_done_core_inv1 c s t rt : c_ordered c = true -> inv1 s -> inv1 (fst (do_done_core c s t rt)).
+Proof.
+  intros O I. unfold do_done_core. destruct (aget t (pend s)) as [r|] eqn:P; auto.
   assert (SUB : forall t' r', aget t' (aremove t (pend s)) = Some r' -> aget t' (pend s) = Some r').
   { intros t' r'. rewrite aget_aremove. destruct (N.eqb t' t); [discriminate|auto]. }
+  destruct (aget t (poison s)) as [al|] eqn:PO.
+  { destruct rt; cbn [fst]; apply inv1_pend_sub; auto. }
   destruct I.
   destruct (effective c s (s_id r) t) eqn:EF; cbn [fst].
   - assert (NR : ~ In (s_id r) (released s)).
@@ -223,6 +235,47 @@ Proof.
     + intros t' r' H. eauto.
     + intros j Hj. destruct (i_gone0 j Hj) as (A & B & a & C & D). repeat split; auto.
       exists a. split; auto. intros; eauto.
+Qed.
+
+Lemma do_done_core_live c s t rt : live (fst (do_done_core c s t rt)) = live s.
+Proof.
+  unfold do_done_core. destruct (aget t (pend s)); auto. destruct (aget t (poison s)); [destruct rt; auto|].
+  destruct (effective c s (s_id s0) t); auto.
+Qed.
+
+Lemma flush_inv1 c ts : forall s, c_ordered c = true -> inv1 s ->
+  inv1 (fold_left (fun s0 t => fst (do_done_core c s0 t false)) ts s) /\
+  live (fold_left (fun s0 t => fst (do_done_core c s0 t false)) ts s) = live s.
+Proof.
+  induction ts as [|t ts IH]; intros s O I; cbn [fold_left]; auto.
+  destruct (IH (fst (do_done_core c s t false)) O (do_done_core_inv1 c s t false O I)) as (A & B).
+  split; auto. rewrite B. apply do_done_core_live.
+Qed.
+
+Lemma cksf_tail_inv1 s1 i r :
+  inv1 s1 -> aget i (live s1) = Some r ->
+  inv1 {| store := store s1; pend := pend s1; tick := tick s1 + 1; applied := applied s1;
+          live := aput i (set_stamp r (tick s1)) (live s1); leases := leases s1; dp := dp s1; dpnext := dpnext s1;
+          released := released s1; used := used s1; poison := poison s1 |}.
+Proof.
+  intros I L. destruct I.
+  assert (NR : ~ In i (released s1)).
+  { intros Hi. destruct (i_gone0 i Hi) as (_ & B & _). congruence. }
+  constructor; cbn [store live pend tick applied released used]; auto.
+  - intros k r0. rewrite aget_aput. eqb_case k i; [intros H; inversion H; cbn; eauto | auto].
+  - intros t r0 H. apply i_pend_tick0 in H. lia.
+  - intros j a H. apply i_appl_tick0 in H. lia.
+  - intros k r0. rewrite aget_aput. eqb_case k i; eauto.
+  - intros j Hj. destruct (i_gone0 j Hj) as (A & B & a & C & D). repeat split; auto.
+    + rewrite aget_aput_neq; auto. intro; subst. auto.
+    + exists a. split; auto.
+Qed.
+
+Lemma do_cksf_inv1 c s i : c_ordered c = true -> inv1 s -> inv1 (fst (do_cksf c s i)).
+Proof.
+  intros O I. unfold do_cksf. destruct (aget i (live s)) as [r|] eqn:L; auto. rewrite O. cbn [fst].
+  destruct (flush_inv1 c (map fst (filter (fun tr => (s_id (snd tr) =? i) && (fst tr <? tick s)) (pend s))) s O I) as (A & B).
+  apply cksf_tail_inv1; auto. unfold flush. rewrite B. auto.
 Qed.
 
 (* ---- the restore loop keeps invariant 1 ---- *)
@@ -259,7 +312,7 @@ Lemma inv1_replay s k r' ls d nx :
   inv1 s -> s_id r' = k -> In k (used s) -> ~ In k (released s) ->
   inv1 {| store := store s; pend := pend s ++ [(tick s, r')]; tick := tick s + 1; applied := applied s;
           live := aput k r' (live s); leases := ls; dp := d; dpnext := nx;
-          released := released s; used := used s |}.
+          released := released s; used := used s; poison := poison s |}.
 Proof.
   intros [] ID U NR. constructor; cbn [store live pend tick applied released used]; auto.
   - intros k0 r0. rewrite aget_aput. eqb_case k0 k; [intros H; inversion H; subst; auto|auto].
@@ -317,7 +370,7 @@ Proof.
   intros I. unfold do_crash.
   set (s0 := {| store := store s; pend := []; tick := tick s; applied := applied s; live := [];
                 leases := []; dp := if p then dp s else []; dpnext := if p then dpnext s else swif_base;
-                released := released s; used := used s |}).
+                released := released s; used := used s; poison := [] |}).
   assert (I0 : inv1 s0).
   { destruct I. constructor; cbn [s0 store live pend tick applied released used]; auto;
       try (intros; discriminate).
@@ -330,6 +383,13 @@ Proof.
   destruct (fold_left _ _ _) as [s1 lg]. cbn [fst] in *. auto.
 Qed.
 
+Lemma do_done_inv1 c s t rt : c_ordered c = true -> inv1 s -> inv1 (fst (do_done c s t rt)).
+Proof.
+  intros O I. unfold do_done. destruct (aget t (pend s)) as [r|]; [|apply do_done_core_inv1; auto].
+  destruct (aget t (poison s)); [|apply do_done_core_inv1; auto]. rewrite O.
+  apply do_done_core_inv1; auto. unfold flush. apply flush_inv1; auto.
+Qed.
+
 Lemma step_inv1 c s o s' out :
   c_ordered c = true -> inv1 s -> step c s o = Some (s', out) -> inv1 s'.
 Proof.
@@ -339,6 +399,8 @@ Proof.
   - inversion H. change s' with (fst (s', out)). rewrite <- H1. apply do_cks_inv1; auto.
   - inversion H. change s' with (fst (s', out)). rewrite <- H1. apply do_rel_inv1; auto.
   - inversion H. change s' with (fst (s', out)). rewrite <- H1. apply do_done_inv1; auto.
+  - inversion H. change s' with (fst (s', out)). rewrite <- H1. apply do_poison_inv1; auto.
+  - inversion H. change s' with (fst (s', out)). rewrite <- H1. apply do_cksf_inv1; auto.
   - inversion H. change s' with (fst (s', out)). rewrite <- H1. apply do_crash_inv1; auto.
 Qed.
 
@@ -380,7 +442,7 @@ Proof.
               (store s) (isort (map fst (store s)))
               {| store := store s; pend := []; tick := tick s; applied := applied s; live := [];
                  leases := []; dp := if p then dp s else []; dpnext := if p then dpnext s else swif_base;
-                 released := released s; used := used s |} []) as (_ & _ & GR).
+                 released := released s; used := used s; poison := [] |} []) as (_ & _ & GR).
       - intros k r G. destruct I. cbn [used released]. repeat split; eauto.
         intros Hk. destruct (i_gone0 k Hk) as (A & _). congruence.
       - destruct I. constructor; cbn [store live pend tick applied released used]; auto;
@@ -495,7 +557,7 @@ Lemma restore_replay_self c f cause dp0 s lg k r :
                tick := tick (install c s k r) + 1; applied := applied (install c s k r);
                live := aput k (set_prog r sw) (live (install c s k r)); leases := leases (install c s k r);
                dp := dp_prog k r d1; dpnext := nx1; released := released (install c s k r);
-               used := used (install c s k r) |} in
+               used := used (install c s k r); poison := poison (install c s k r) |} in
   restoredQ c f cause dp0 k r s' (lg ++ prog_log c k sw r ++ [TR k cause]) /\ dpinv dp0 k s'.
 Proof.
   intros RP FL DI sw d1 nx1 DA s'.
@@ -829,7 +891,7 @@ Proof.
   assert (REST : forall (r : sess) d nx, addrs r = addrs r0 ->
             inv2 c {| store := store s; pend := pend s; tick := tick s; applied := applied s;
                       live := aput (n_id n) r (live s); leases := l3; dp := d; dpnext := nx;
-                      released := released s; used := n_id n :: used s |}).
+                      released := released s; used := n_id n :: used s; poison := poison s |}).
   { intros r d nx EA. destruct I1, I2. constructor; cbn [store live pend leases applied].
     - intros k r1 ad. rewrite aget_aput. eqb_case k (n_id n).
       + intros H1. inversion H1; subst. apply OWN; auto.
@@ -894,11 +956,22 @@ Proof.
       destruct (k_pend0 _ _ G EF) as (r' & GL & E). rewrite aget_aremove_neq; eauto.
 Qed.
 
-Lemma do_done_inv2 c s t : c_ordered c = true -> inv1 s -> inv2 c s -> inv2 c (fst (do_done c s t)).
+Lemma inv2_pend_sub c s pd po :
+  inv2 c s -> (forall t r, aget t pd = Some r -> aget t (pend s) = Some r) -> inv2 c (set_pend_poison s pd po).
 Proof.
-  intros O I1 I2. unfold do_done. destruct (aget t (pend s)) as [r|] eqn:P; auto.
+  intros [] SUB. constructor; cbn [set_pend_poison store live pend leases applied]; eauto.
+Qed.
+
+Lemma do_poison_inv2 c s t al : inv2 c s -> inv2 c (fst (do_poison s t al)).
+Proof. intros I. unfold do_poison. destruct (aget t (pend s)); auto. cbn [fst]. apply inv2_pend_sub; auto. Qed.
+
+Lemma do_done_core_inv2 c s t rt : c_ordered c = true -> inv1 s -> inv2 c s -> inv2 c (fst (do_done_core c s t rt)).
+Proof.
+  intros O I1 I2. unfold do_done_core. destruct (aget t (pend s)) as [r|] eqn:P; auto.
   assert (SUB : forall t' r', aget t' (aremove t (pend s)) = Some r' -> aget t' (pend s) = Some r' /\ t' <> t).
   { intros t' r'. rewrite aget_aremove. eqb_case t' t; [discriminate|auto]. }
+  destruct (aget t (poison s)) as [al|] eqn:PO.
+  { destruct rt; cbn [fst]; apply inv2_pend_sub; auto. intros t' r' H. apply SUB in H. tauto. }
   destruct I1, I2.
   destruct (effective c s (s_id r) t) eqn:EF; cbn [fst].
   - constructor; cbn [store live pend leases applied]; auto.
@@ -910,6 +983,32 @@ Proof.
   - constructor; cbn [store live pend leases applied]; auto.
     intros t' r1 G EF'. apply SUB in G. destruct G as (G & NE). apply (k_pend0 _ _ G).
     erewrite effective_eq in EF' by reflexivity. auto.
+Qed.
+
+Lemma flush_inv12 c ts : forall s, c_ordered c = true -> inv1 s -> inv2 c s ->
+  inv1 (fold_left (fun s0 t => fst (do_done_core c s0 t false)) ts s) /\
+  inv2 c (fold_left (fun s0 t => fst (do_done_core c s0 t false)) ts s).
+Proof.
+  induction ts as [|t ts IH]; intros s O I1 I2; cbn [fold_left]; auto.
+  apply IH; auto. apply do_done_core_inv1; auto. apply do_done_core_inv2; auto.
+Qed.
+
+Lemma do_cksf_inv2 c s i : c_ordered c = true -> inv1 s -> inv2 c s -> inv2 c (fst (do_cksf c s i)).
+Proof.
+  intros O I1 I2. unfold do_cksf. destruct (aget i (live s)) as [r|] eqn:L; auto. rewrite O. cbn [fst].
+  destruct (flush_inv12 c (map fst (filter (fun tr => (s_id (snd tr) =? i) && (fst tr <? tick s)) (pend s))) s O I1 I2) as (J1 & J2).
+  destruct (flush_inv1 c (map fst (filter (fun tr => (s_id (snd tr) =? i) && (fst tr <? tick s)) (pend s))) s O I1) as (_ & B).
+  fold (flush c s i (tick s)) in J1, J2, B. set (s1 := flush c s i (tick s)) in *.
+  assert (L1 : aget i (live s1) = Some r) by (rewrite B; auto).
+  destruct J1, J2.
+  constructor; cbn [store live pend leases applied].
+  - intros k r1 ad. rewrite aget_aput. eqb_case k i; [|eauto].
+    intros H. inversion H; subst. rewrite set_stamp_addrs. eauto.
+  - intros k r1 G. destruct (k_store0 _ _ G) as (r' & GL & E). rewrite aget_aput. eqb_case k i; [|eauto].
+    rewrite L1 in GL. inversion GL; subst. eexists; split; eauto.
+  - intros t r1 G EF. erewrite effective_eq in EF by reflexivity.
+    destruct (k_pend0 _ _ G EF) as (r' & GL & E). rewrite aget_aput. eqb_case (s_id r1) i; [|eauto].
+    rewrite L1 in GL. inversion GL; subst. eexists; split; eauto.
 Qed.
 
 (* ---- effect of one restore step on store / pend / live ---- *)
@@ -1028,6 +1127,14 @@ Proof.
     destruct (l_live0 _ _ GL) as (r0' & A' & B'). exists r'. split; auto. congruence.
 Qed.
 
+Lemma do_done_inv2 c s t rt : c_ordered c = true -> inv1 s -> inv2 c s -> inv2 c (fst (do_done c s t rt)).
+Proof.
+  intros O I1 I2. unfold do_done. destruct (aget t (pend s)) as [r|]; [|apply do_done_core_inv2; auto].
+  destruct (aget t (poison s)); [|apply do_done_core_inv2; auto]. rewrite O.
+  destruct (flush_inv12 c (map fst (filter (fun tr => (s_id (snd tr) =? s_id r) && (fst tr <? t)) (pend s))) s O I1 I2).
+  apply do_done_core_inv2; auto.
+Qed.
+
 Lemma step_inv12 c s o s' out :
   c_ordered c = true -> reserves c -> pools_small c ->
   inv1 s /\ inv2 c s -> step c s o = Some (s', out) -> inv1 s' /\ inv2 c s'.
@@ -1039,6 +1146,8 @@ Proof.
   - inversion H. change s' with (fst (s', out)). rewrite <- H1. apply do_cks_inv2; auto.
   - inversion H. change s' with (fst (s', out)). rewrite <- H1. apply do_rel_inv2; auto.
   - inversion H. change s' with (fst (s', out)). rewrite <- H1. apply do_done_inv2; auto.
+  - inversion H. change s' with (fst (s', out)). rewrite <- H1. apply do_poison_inv2; auto.
+  - inversion H. change s' with (fst (s', out)). rewrite <- H1. apply do_cksf_inv2; auto.
   - inversion H. change s' with (fst (s', out)). rewrite <- H1. apply do_crash_inv2; auto.
 Qed.
 
